@@ -133,6 +133,7 @@ fn candidates(p: &Plan) -> Vec<Plan> {
         q.filtered_rules.clear();
         out.push(q);
     }
+    cfg_off!(tags_filter, None);
     cfg_off!(cli_retry_filter, None);
     cfg_off!(builder_retry_filter, None);
     if p.cfg.closure_retry.is_some() {
